@@ -369,6 +369,7 @@ function newRun(job, resp, side) {
         return fns.get(name);
       },
     });
+    R.nsObject = ns;
     Object.defineProperty(g, '_ddiast', { value: ns, writable: true, enumerable: false, configurable: true });
   }
 
@@ -563,6 +564,14 @@ async function runOne(job, resp, side) {
         }
       } catch (e) { /* ignore */ }
       res.ddiast = info;
+    } else {
+      // a hook object installed before the file ran must still be THE hook object afterwards
+      let same = false;
+      try {
+        const d = Object.getOwnPropertyDescriptor(R.sandbox, '_ddiast');
+        same = !!(d && 'value' in d && d.value === R.nsObject);
+      } catch (e) { /* ignore */ }
+      res.ddiast = { exists: true, keys: [], preserved: same };
     }
   }
   res.outcome = outcome;
